@@ -1,9 +1,11 @@
 /-
-Third invariant of the process machine (`Uniflow.Process`): the WAIT COUNTER.
-  waitCnt p = (threads between `p.wait.Add(1)` and the registration of the new child)
-            + (children of p whose `wait.Done` hook has not run yet)
-so `wait.Done` never drives the counter negative, and a counter of 0 means every child's
-`wait.Done` hook – the first hook a child is born with, hence the last one to run – has run.
+Third invariant of the process machine (`Uniflow.Process`): the CHILDREN COUNTER.
+  children p = (threads between `p.children++` and the registration of the new child)
+             + (children of p whose wait-done hook has not run yet)
+so the counter (a Go `int`) never becomes negative, and a counter of 0 means every child's
+wait-done hook – the first hook a child is born with, hence the last one to run – has run.
+Together with the condition variable: a thread parked in `p.join.Wait()` always sees a positive
+counter (no lost wake-up), so `Join` returns exactly when the counter is 0 at one of its checks.
 -/
 import Uniflow.Proofs.ProcessOrder
 
@@ -23,19 +25,18 @@ theorem sumTo_except {n : Nat} {f g : Nat → Nat} {i : Nat} (hi : i < n)
       have := h n (by omega) (by omega)
       omega
 
-/-- threads that did `p.wait.Add(1)` and have not yet created/registered the child -/
+/-- threads that did `p.children++` and have not yet created/registered the child -/
 def pendForks (s : State) (p : Nat) : Nat :=
   sumTo s.nt (fun t => if (s.threads t).pc = .forkReg p then 1 else 0)
 
-/-- 1 iff `c` is a child of `p` whose `wait.Done` hook has not run -/
+/-- 1 iff `c` is a child of `p` whose wait-done hook has not run -/
 def unrun (s : State) (p c : Nat) : Nat :=
   if (s.procs c).parent = some p ∧ cntL (s.procs c).wtok s.log = 0 then 1 else 0
 
 def unrunKids (s : State) (p : Nat) : Nat := sumTo s.np (fun c => unrun s p c)
 
 structure JC (s : State) : Prop where
-  noPanic : s.wgPanic = false
-  acc : ∀ p, p < s.np → (s.procs p).waitCnt = pendForks s p + unrunKids s p
+  acc : ∀ p, p < s.np → (s.procs p).children = (pendForks s p : Int) + (unrunKids s p : Int)
   parentLt : ∀ c p, c < s.np → (s.procs c).parent = some p → p < s.np
   wtokOK : ∀ c, c < s.np → (s.procs c).parent.isSome = true →
     (s.procs c).wtok < s.nextTok ∧ s.owner (s.procs c).wtok = c ∧ s.late (s.procs c).wtok = false
@@ -45,20 +46,20 @@ structure JC (s : State) : Prop where
 /-- the static part of a process record and the wait counter -/
 def StaticSame (s s' : State) : Prop :=
   ∀ c, (s'.procs c).parent = (s.procs c).parent ∧ (s'.procs c).wtok = (s.procs c).wtok ∧
-    (s'.procs c).waitCnt = (s.procs c).waitCnt
+    (s'.procs c).children = (s.procs c).children
 
 theorem jc_init (nt : Nat) : JC (init nt) := by
-  refine ⟨rfl, ?_, ?_, ?_, ?_⟩ <;> simp [init]
+  refine ⟨?_, ?_, ?_, ?_⟩ <;> simp [init, pendForks, unrunKids, sumTo]
 
 theorem unrun_congr {s s' : State} (hlog : s'.log = s.log) (hst : StaticSame s s') (p c : Nat) :
     unrun s' p c = unrun s p c := by
   simp only [unrun, hlog, (hst c).1, (hst c).2.1]
 
 theorem jc_congr {s s' : State} (j : JC s) (hnp : s'.np = s.np) (hnt : s'.nt = s.nt) (hlog : s'.log = s.log)
-    (hpan : s'.wgPanic = s.wgPanic) (hpc : ∀ t, (s'.threads t).pc = (s.threads t).pc)
+    (hpc : ∀ t, (s'.threads t).pc = (s.threads t).pc)
     (hst : StaticSame s s') (hnext : s'.nextTok = s.nextTok) (hown : s'.owner = s.owner)
     (hlate : s'.late = s.late) : JC s' := by
-  refine ⟨by rw [hpan]; exact j.noPanic, ?_, ?_, ?_, ?_⟩
+  refine ⟨?_, ?_, ?_, ?_⟩
   · intro p hp
     have h1 : pendForks s' p = pendForks s p := by
       simp only [pendForks, hnt]; exact sumTo_congr (fun t _ => by rw [hpc t])
@@ -75,7 +76,7 @@ theorem jc_congr {s s' : State} (j : JC s) (hnp : s'.np = s.np) (hnt : s'.nt = s
     rw [(hst c).2.1]; exact j.wmin c k hc hpar hk ho
 
 theorem jc_alloc {s : State} (j : JC s) (p : Nat) (_hp : p < s.np) (l : Bool) : JC (alloc s p l) := by
-  refine ⟨j.noPanic, j.acc, j.parentLt, ?_, ?_⟩
+  refine ⟨j.acc, j.parentLt, ?_, ?_⟩
   · intro c hc hpar
     have := j.wtokOK c hc hpar
     have e : (s.procs c).wtok ≠ s.nextTok := by omega
@@ -95,7 +96,7 @@ theorem jc_alloc {s : State} (j : JC s) (p : Nat) (_hp : p < s.np) (l : Bool) : 
 theorem static_refl (s : State) : StaticSame s s := fun _ => ⟨rfl, rfl, rfl⟩
 
 theorem static_setProc (s : State) (p : Nat) (pr : Proc) (h1 : pr.parent = (s.procs p).parent)
-    (h2 : pr.wtok = (s.procs p).wtok) (h3 : pr.waitCnt = (s.procs p).waitCnt) :
+    (h2 : pr.wtok = (s.procs p).wtok) (h3 : pr.children = (s.procs p).children) :
     StaticSame s (setProc s p pr) := by
   intro c
   by_cases e : c = p
@@ -111,23 +112,23 @@ theorem exitFlip_pc (s : State) (t p e t' : Nat) : ((exitFlip s t p e).threads t
   unfold exitFlip; dsimp only; split <;> exact pushFrame_pc _ t _ t'
 
 theorem exitFlip_ghost (s : State) (t p e : Nat) :
-    (exitFlip s t p e).log = s.log ∧ (exitFlip s t p e).wgPanic = s.wgPanic ∧
+    (exitFlip s t p e).log = s.log ∧
     (exitFlip s t p e).nextTok = s.nextTok ∧ (exitFlip s t p e).owner = s.owner ∧
     (exitFlip s t p e).late = s.late := by
-  unfold exitFlip; dsimp only; split <;> exact ⟨rfl, rfl, rfl, rfl, rfl⟩
+  unfold exitFlip; dsimp only; split <;> exact ⟨rfl, rfl, rfl, rfl⟩
 
 theorem jc_exitFlip {s : State} (j : JC s) (t p e : Nat) : JC (exitFlip s t p e) := by
   have h := exitFlip_ghost s t p e
-  exact jc_congr j (by simp) (by simp) h.1 h.2.1 (exitFlip_pc s t p e) (static_exitFlip s t p e) h.2.2.1 h.2.2.2.1 h.2.2.2.2
+  exact jc_congr j (by simp) (by simp) h.1 (exitFlip_pc s t p e) (static_exitFlip s t p e) h.2.1 h.2.2.1 h.2.2.2
 
 theorem jc_addHook {s : State} (j : JC s) (t p : Nat) (k : HookKind) (hp : p < s.np) : JC (addHook s t p k) := by
   unfold addHook; dsimp only
   split
-  · exact jc_congr (jc_alloc j p hp true) rfl rfl rfl rfl (pushFrame_pc _ t _) (static_refl _) rfl rfl rfl
+  · exact jc_congr (jc_alloc j p hp true) rfl rfl rfl (pushFrame_pc _ t _) (static_refl _) rfl rfl rfl
   · split
     · exact j
     · exact jc_alloc (jc_congr (s' := setProc s p { s.procs p with hooks := (s.procs p).hooks ++ [{ kind := k, tok := s.nextTok }] })
-        j rfl rfl rfl rfl (fun _ => rfl) (static_setProc s p _ rfl rfl rfl) rfl rfl rfl) p hp false
+        j rfl rfl rfl (fun _ => rfl) (static_setProc s p _ rfl rfl rfl) rfl rfl rfl) p hp false
 
 /-! ### program-counter changes -/
 
@@ -142,7 +143,7 @@ theorem pend_setThread (s : State) (t : Nat) (th : Thread) (p : Nat) (ht : t < s
 theorem jc_setPc_nonfork {s : State} (j : JC s) (t : Nat) (pc : Pc) (ht : t < s.nt)
     (hold : ∀ p, (s.threads t).pc ≠ .forkReg p) (hnew : ∀ p, pc ≠ .forkReg p) :
     JC (setThread s t { s.threads t with pc := pc }) := by
-  refine ⟨j.noPanic, ?_, j.parentLt, j.wtokOK, j.wmin⟩
+  refine ⟨?_, j.parentLt, j.wtokOK, j.wmin⟩
   intro p hp
   have h1 := pend_setThread s t { s.threads t with pc := pc } p ht
   simp only [hold p, hnew p, if_false] at h1
@@ -151,18 +152,18 @@ theorem jc_setPc_nonfork {s : State} (j : JC s) (t : Nat) (pc : Pc) (ht : t < s.
   have := j.acc p hp
   simp only [setThread_procs]; omega
 
-/-- `forkAdd`: `p.wait.Add(1)` and the thread enters `forkReg p` -/
+/-- `forkAdd`: `p.children++` and the thread enters `forkReg p` -/
 theorem jc_forkStart {s : State} (j : JC s) (t p : Nat) (ht : t < s.nt) (hp : p < s.np)
     (hidle : (s.threads t).pc = .idle) :
-    JC (setThread (setProc s p { s.procs p with waitCnt := (s.procs p).waitCnt + 1 }) t
+    JC (setThread (setProc s p { s.procs p with children := (s.procs p).children + 1 }) t
       { s.threads t with pc := .forkReg p }) := by
-  refine ⟨j.noPanic, ?_, ?_, ?_, ?_⟩
+  refine ⟨?_, ?_, ?_, ?_⟩
   · intro q hq
-    have h1 := pend_setThread (setProc s p { s.procs p with waitCnt := (s.procs p).waitCnt + 1 }) t
+    have h1 := pend_setThread (setProc s p { s.procs p with children := (s.procs p).children + 1 }) t
       { s.threads t with pc := .forkReg p } q ht
-    have h0 : pendForks (setProc s p { s.procs p with waitCnt := (s.procs p).waitCnt + 1 }) q = pendForks s q := rfl
+    have h0 : pendForks (setProc s p { s.procs p with children := (s.procs p).children + 1 }) q = pendForks s q := rfl
     simp only [setProc_threads, hidle] at h1
-    have h2 : unrunKids (setThread (setProc s p { s.procs p with waitCnt := (s.procs p).waitCnt + 1 }) t
+    have h2 : unrunKids (setThread (setProc s p { s.procs p with children := (s.procs p).children + 1 }) t
         { s.threads t with pc := .forkReg p }) q = unrunKids s q := by
       simp only [unrunKids, setThread_np, setProc_np]
       apply sumTo_congr
@@ -210,7 +211,7 @@ theorem jc_new {s : State} (g : Good s) (j : JC s) : JC { setProc s s.np {} with
         = sumTo s.np (fun c => unrun { setProc s s.np {} with np := s.np + 1 } q c)
           + unrun { setProc s s.np {} with np := s.np + 1 } q s.np := rfl
     rw [h2, h1, h0]; rfl
-  refine ⟨j.noPanic, ?_, ?_, ?_, ?_⟩
+  refine ⟨?_, ?_, ?_, ?_⟩
   · intro q hq
     rw [hkids q]
     have hp : pendForks { setProc s s.np {} with np := s.np + 1 } q = pendForks s q := rfl
@@ -241,7 +242,7 @@ theorem jc_new {s : State} (g : Good s) (j : JC s) : JC { setProc s s.np {} with
     · simp [upd_other _ _ e] at hpar ⊢; exact j.wmin c k (by simp at hc; omega) hpar hk ho
 
 /-- second half of `Fork` up to the creation of the child: the thread leaves `forkReg p`, the
-child is born with an un-run `wait.Done` hook -/
+child is born with an un-run wait-done hook -/
 theorem jc_forkReg_mk {s : State} (g : Good s) (o : Ord s) (j : JC s) (t p : Nat) (ht : t < s.nt) (hp : p < s.np)
     (hpc : (s.threads t).pc = .forkReg p) :
     JC (mkChild (setThread s t { s.threads t with pc := .idle }) p) := by
@@ -277,7 +278,7 @@ theorem jc_forkReg_mk {s : State} (g : Good s) (o : Ord s) (j : JC s) (t p : Nat
         = sumTo s.np (fun c => unrun (mkChild (setThread s t { s.threads t with pc := .idle }) p) q c)
           + unrun (mkChild (setThread s t { s.threads t with pc := .idle }) p) q s.np := rfl
     rw [h2, h1, h0]; rfl
-  refine ⟨j.noPanic, ?_, ?_, ?_, ?_⟩
+  refine ⟨?_, ?_, ?_, ?_⟩
   · intro q hq
     have h1 := hpend q; have h2 := hkids q
     by_cases e : q = s.np
@@ -291,12 +292,12 @@ theorem jc_forkReg_mk {s : State} (g : Good s) (o : Ord s) (j : JC s) (t p : Nat
       have h4 := pend_zero_beyond g s.np (Nat.le_refl _)
       have e' : p ≠ s.np := by omega
       rw [if_neg e'] at h1 h2
-      have h5 : ((mkChild (setThread s t { s.threads t with pc := .idle }) p).procs s.np).waitCnt = 0 := by
+      have h5 : ((mkChild (setThread s t { s.threads t with pc := .idle }) p).procs s.np).children = 0 := by
         simp [mkChild]
       rw [h5]; omega
     · have hq' : q < s.np := by simp [mkChild] at hq; omega
       have h3 := j.acc q hq'
-      have h5 : ((mkChild (setThread s t { s.threads t with pc := .idle }) p).procs q).waitCnt = (s.procs q).waitCnt := by
+      have h5 : ((mkChild (setThread s t { s.threads t with pc := .idle }) p).procs q).children = (s.procs q).children := by
         simp [mkChild, upd_other _ _ e]
       rw [h5]
       by_cases e2 : p = q
@@ -494,7 +495,7 @@ theorem jc_logMove_nonwd {s : State} (g : Good s) (j : JC s) (w : JW s) (t : Nat
     (hf : f.rem = h :: hs) (hk : ∀ q, h.kind ≠ .waitDone q) : JC (logMove s t f h hs rest) := by
   have hfm : f ∈ (s.threads t).stack := by rw [hst]; simp
   have hhm : h ∈ f.rem := by rw [hf]; simp
-  refine ⟨j.noPanic, ?_, j.parentLt, j.wtokOK, j.wmin⟩
+  refine ⟨?_, j.parentLt, j.wtokOK, j.wmin⟩
   intro p hp
   rw [pend_logMove s t f h hs rest p ht]
   have h2 : unrunKids (logMove s t f h hs rest) p = unrunKids s p := by
@@ -508,27 +509,24 @@ theorem jc_logMove_nonwd {s : State} (g : Good s) (j : JC s) (w : JW s) (t : Nat
     exact hk q hq
   rw [h2]; exact j.acc p hp
 
-/-- `wait.Done` on a positive counter -/
-def decWait (s1 : State) (q : Nat) : State :=
-  setProc s1 q { s1.procs q with waitCnt := (s1.procs q).waitCnt - 1 }
+theorem pend_broadcast (s : State) (q p : Nat) : pendForks (broadcast s q) p = pendForks s p := by
+  simp only [pendForks]
+  have hnt : (broadcast s q).nt = s.nt := rfl
+  rw [hnt]
+  apply sumTo_congr
+  intro t _
+  by_cases e : (s.threads t).pc = .forkReg p
+  · simp [e, (broadcast_forkReg s q t p).mpr e]
+  · have := mt (broadcast_forkReg s q t p).mp e
+    simp [e, this]
 
-theorem waitDone_pos (s1 : State) (q : Nat) (h : (s1.procs q).waitCnt ≠ 0) : waitDone s1 q = decWait s1 q := by
-  unfold waitDone decWait; simp [h]
+theorem pend_waitDone (s : State) (q p : Nat) : pendForks (waitDone s q) p = pendForks s p := by
+  unfold waitDone; dsimp only; split
+  · rw [pend_broadcast]; rfl
+  · rfl
 
-theorem decWait_static (s1 : State) (q c : Nat) :
-    ((decWait s1 q).procs c).parent = (s1.procs c).parent ∧ ((decWait s1 q).procs c).wtok = (s1.procs c).wtok := by
-  unfold decWait
-  by_cases e : c = q
-  · subst e; simp
-  · simp [upd_other _ _ e]
-
-theorem decWait_waitCnt (s1 : State) (q c : Nat) :
-    ((decWait s1 q).procs c).waitCnt = if c = q then (s1.procs q).waitCnt - 1 else (s1.procs c).waitCnt := by
-  unfold decWait
-  by_cases e : c = q
-  · subst e; simp
-  · simp [upd_other _ _ e, e]
-
+/-- the wait-done hook of a child of `q` runs: the counter of `q` goes down by one, and so does
+the number of its children with an un-run wait-done hook -/
 theorem jc_logMove_wd {s : State} (g : Good s) (j : JC s) (w : JW s) (t : Nat) (f : Frame) (h : Hook)
     (hs : List Hook) (rest : List Frame) (ht : t < s.nt) (hst : (s.threads t).stack = f :: rest)
     (hf : f.rem = h :: hs) (q : Nat) (hk : h.kind = .waitDone q) :
@@ -537,33 +535,24 @@ theorem jc_logMove_wd {s : State} (g : Good s) (j : JC s) (w : JW s) (t : Nat) (
   have hhm : h ∈ f.rem := by rw [hf]; simp
   have hfo := g.frameOK t f ht hfm
   obtain ⟨hpar0, hw0⟩ := (w.wdF t f h ht hfm hhm).1 q hk
-  have hq : q < s.np := j.parentLt f.proc q hfo.1 hpar0
   have hlog0 : cntL h.tok s.log = 0 := by
     have hc := (g.cons h.tok).1 (g.frame_lt ht hfm hhm)
     have h1 := cntS_mem_pos hfm hhm rfl
     have h2 := sumTo_ge (f := fun t => cntS h.tok (s.threads t).stack) ht
     simp only [total, framesCount] at hc
     omega
-  have hpos : (s.procs q).waitCnt ≠ 0 := by
-    have hun : unrun s q f.proc = 1 := by simp [unrun, hpar0, hw0, hlog0]
-    have h1 := j.acc q hq
-    have h2 := sumTo_ge (f := fun c => unrun s q c) hfo.1
-    simp only [unrunKids] at h1
-    omega
-  rw [waitDone_pos (logMove s t f h hs rest) q hpos]
-  have st := decWait_static (logMove s t f h hs rest) q
-  refine ⟨j.noPanic, ?_, ?_, ?_, ?_⟩
+  have st := waitDone_fields (logMove s t f h hs rest) q
+  have gh := waitDone_ghost (logMove s t f h hs rest) q
+  refine ⟨?_, ?_, ?_, ?_⟩
   · intro p hp
-    have hp' : p < s.np := hp
-    have hpend : pendForks (decWait (logMove s t f h hs rest) q) p = pendForks s p := by
-      have : pendForks (decWait (logMove s t f h hs rest) q) p = pendForks (logMove s t f h hs rest) p := rfl
-      rw [this, pend_logMove s t f h hs rest p ht]
-    have hkids : unrunKids (decWait (logMove s t f h hs rest) q) p + (if p = q then 1 else 0) = unrunKids s p := by
+    have hp' : p < s.np := by rw [gh.1] at hp; exact hp
+    have hpend : pendForks (waitDone (logMove s t f h hs rest) q) p = pendForks s p := by
+      rw [pend_waitDone, pend_logMove s t f h hs rest p ht]
+    have hkids : unrunKids (waitDone (logMove s t f h hs rest) q) p + (if p = q then 1 else 0) = unrunKids s p := by
       have hx := sumTo_except (n := s.np) (f := fun c => unrun s p c)
-        (g := fun c => unrun (decWait (logMove s t f h hs rest) q) p c) hfo.1 ?_
-      · have h1 : unrun (decWait (logMove s t f h hs rest) q) p f.proc = 0 := by
-          have e0 : (decWait (logMove s t f h hs rest) q).log = (logMove s t f h hs rest).log := rfl
-          simp only [unrun, (st f.proc).1, (st f.proc).2, e0, logMove_procs, logMove_log, cntL_cons, hw0]
+        (g := fun c => unrun (waitDone (logMove s t f h hs rest) q) p c) hfo.1 ?_
+      · have h1 : unrun (waitDone (logMove s t f h hs rest) q) p f.proc = 0 := by
+          simp only [unrun, (st f.proc).1, (st f.proc).2.1, gh.2.2.1, logMove_procs, logMove_log, cntL_cons, hw0]
           simp
         have h2 : unrun s p f.proc = (if p = q then 1 else 0) := by
           simp only [unrun, hpar0, hw0, hlog0]
@@ -571,22 +560,22 @@ theorem jc_logMove_wd {s : State} (g : Good s) (j : JC s) (w : JW s) (t : Nat) (
           · subst e; simp
           · have : ¬ (some q = some p) := by intro x; cases x; exact e rfl
             simp [e, this]
-        have e1 : unrunKids (decWait (logMove s t f h hs rest) q) p
-            = sumTo s.np (fun c => unrun (decWait (logMove s t f h hs rest) q) p c) := rfl
+        have e1 : unrunKids (waitDone (logMove s t f h hs rest) q) p
+            = sumTo s.np (fun c => unrun (waitDone (logMove s t f h hs rest) q) p c) := by
+          simp only [unrunKids, gh.1, logMove_np]
         rw [e1]
         simp only [h1, h2] at hx
         simp only [unrunKids]
         omega
       · intro c hc hne
-        have e0 : (decWait (logMove s t f h hs rest) q).log = (logMove s t f h hs rest).log := rfl
-        have e1 : unrun (decWait (logMove s t f h hs rest) q) p c = unrun (logMove s t f h hs rest) p c := by
-          simp only [unrun, e0, (st c).1, (st c).2]
-        show unrun (decWait (logMove s t f h hs rest) q) p c = unrun s p c
+        have e1 : unrun (waitDone (logMove s t f h hs rest) q) p c = unrun (logMove s t f h hs rest) p c := by
+          simp only [unrun, gh.2.2.1, (st c).1, (st c).2.1]
+        show unrun (waitDone (logMove s t f h hs rest) q) p c = unrun s p c
         rw [e1]
         apply unrun_logMove_other
         intro ⟨hpar, hw⟩
         exact hne (wtok_owner g j ht hfm hhm hc hpar hw)
-    rw [hpend, decWait_waitCnt]
+    rw [hpend, (st p).2.2.2.2]
     have hacc := j.acc p hp'
     by_cases e : p = q
     · subst e
@@ -597,11 +586,14 @@ theorem jc_logMove_wd {s : State} (g : Good s) (j : JC s) (w : JW s) (t : Nat) (
       simp only [logMove_procs]
       omega
   · intro c p hc hpar
+    rw [gh.1] at hc ⊢
     rw [(st c).1] at hpar; exact j.parentLt c p hc hpar
   · intro c hc hpar
-    rw [(st c).1] at hpar; rw [(st c).2]; exact j.wtokOK c hc hpar
+    rw [gh.1] at hc
+    rw [(st c).1] at hpar; rw [(st c).2.1, gh.2.2.2.1, gh.2.2.2.2.1, gh.2.2.2.2.2]; exact j.wtokOK c hc hpar
   · intro c k hc hpar hk' ho
-    rw [(st c).1] at hpar; rw [(st c).2]; exact j.wmin c k hc hpar hk' ho
+    rw [gh.1] at hc; rw [gh.2.2.2.1] at hk'; rw [gh.2.2.2.2.1] at ho
+    rw [(st c).1] at hpar; rw [(st c).2.1]; exact j.wmin c k hc hpar hk' ho
 
 /-! ### assembling the step -/
 
@@ -630,10 +622,10 @@ theorem free_idle {s : State} {t : Nat} (h : free s t = true) : (s.threads t).pc
   · assumption
   · cases h
 
-theorem j_waitDone_jw {s : State} (w : JW s) (q : Nat) : JW (waitDone s q) := by
-  unfold waitDone; dsimp only; split
-  · exact jw_same w rfl rfl (fun _ => rfl) (fun _ => rfl) (fun _ => ⟨rfl, rfl⟩)
-  · exact jw_same w rfl rfl (setProc_hooks_same s q _ rfl) (fun _ => rfl) (setProc_pw s q _ rfl rfl)
+theorem j_waitDone_jw {s : State} (g : Good s) (w : JW s) (q : Nat) : JW (waitDone s q) := by
+  have gh := waitDone_ghost s q
+  exact jw_same w gh.1 gh.2.1 (fun c => (waitDone_fields s q c).2.2.2.1) (inert_waitDone s g q).stacks
+    (fun c => ⟨(waitDone_fields s q c).1, (waitDone_fields s q c).2.1⟩)
 
 theorem j_startOp {s : State} (g : Good s) (j : JC s) (w : JW s) (t : Nat) (ht : t < s.nt)
     (hidle : (s.threads t).pc = .idle) (op : Op) : JC (startOp s t op) ∧ JW (startOp s t op) := by
@@ -652,7 +644,7 @@ theorem j_startOp {s : State} (g : Good s) (j : JC s) (w : JW s) (t : Nat) (ht :
     simp only [startOp]; split
     · rename_i hp
       refine ⟨jc_forkStart j t p ht hp hidle, ?_⟩
-      have w1 : JW (setProc s p { s.procs p with waitCnt := (s.procs p).waitCnt + 1 }) :=
+      have w1 : JW (setProc s p { s.procs p with children := (s.procs p).children + 1 }) :=
         jw_same w rfl rfl (setProc_hooks_same s p _ rfl) (fun _ => rfl) (setProc_pw s p _ rfl rfl)
       exact jw_same w1 rfl rfl (fun _ => rfl) (setPc_stack _ t _) (fun _ => ⟨rfl, rfl⟩)
     · exact ⟨j, w⟩
@@ -663,14 +655,14 @@ theorem j_startOp {s : State} (g : Good s) (j : JC s) (w : JW s) (t : Nat) (ht :
     · exact ⟨j, w⟩
   | setv p k v =>
     simp only [startOp]; split
-    · refine ⟨jc_congr (s' := setProc s p { s.procs p with data := setData (s.procs p).data k v }) j rfl rfl rfl rfl
+    · refine ⟨jc_congr (s' := setProc s p { s.procs p with data := setData (s.procs p).data k v }) j rfl rfl rfl
         (fun _ => rfl) (static_setProc s p _ rfl rfl rfl) rfl rfl rfl, ?_⟩
       exact jw_same w rfl rfl (setProc_hooks_same s p _ rfl) (fun _ => rfl) (setProc_pw s p _ rfl rfl)
     · exact ⟨j, w⟩
   | delv p k =>
     simp only [startOp]; split
     · have hf := removeValue_fields s.np s.procs p k
-      refine ⟨jc_congr (s' := { s with procs := (removeValue s.np s.procs p k).1 }) j rfl rfl rfl rfl (fun _ => rfl)
+      refine ⟨jc_congr (s' := { s with procs := (removeValue s.np s.procs p k).1 }) j rfl rfl rfl (fun _ => rfl)
         (fun c => ⟨(hf c).2.2.2.2.2.1, (hf c).2.2.2.2.2.2.2, (hf c).2.2.2.2.1⟩) rfl rfl rfl, ?_⟩
       exact jw_same (s' := { s with procs := (removeValue s.np s.procs p k).1 }) w rfl rfl (fun c => (hf c).1) (fun _ => rfl)
         (fun c => ⟨(hf c).2.2.2.2.2.1, (hf c).2.2.2.2.2.2.2⟩)
@@ -699,7 +691,7 @@ theorem j_runHook {s : State} (g : Good s) (j : JC s) (w : JW s) (t : Nat) (f : 
   · rename_i n hk
     exact ⟨jc_logMove_nonwd g j w t f h hs rest ht hst hf (by intro q; rw [hk]; intro x; cases x), w1⟩
   · rename_i q hk
-    exact ⟨jc_logMove_wd g j w t f h hs rest ht hst hf q hk, j_waitDone_jw w1 q⟩
+    exact ⟨jc_logMove_wd g j w t f h hs rest ht hst hf q hk, j_waitDone_jw g1 w1 q⟩
   · rename_i c hk
     have j1 := jc_logMove_nonwd g j w t f h hs rest ht hst hf (by intro q; rw [hk]; intro x; cases x)
     have hc := ((g.frameOK t f ht (by rw [hst]; simp)).2 h (by rw [hf]; simp)).2.2.2 c hk
@@ -714,14 +706,16 @@ theorem j_contStep {s : State} (g : Good s) (o : Ord s) (j : JC s) (w : JW s) (t
     exact j_forkReg g o j w t p ht (g.pcOK t p hpc) hpc
   · rename_i p hpc
     split
+    · refine ⟨jc_setPc_nonfork j t (.waiting p) ht (by intro q; rw [hpc]; intro x; cases x) (by intro q x; cases x), ?_⟩
+      exact jw_same w rfl rfl (fun _ => rfl) (setPc_stack _ t _) (fun _ => ⟨rfl, rfl⟩)
     · refine ⟨jc_setPc_nonfork j t .idle ht (by intro q; rw [hpc]; intro x; cases x) (by intro q x; cases x), ?_⟩
       exact jw_same w rfl rfl (fun _ => rfl) (setPc_stack _ t _) (fun _ => ⟨rfl, rfl⟩)
-    · exact ⟨j, w⟩
+  · exact ⟨j, w⟩
   · split
     · exact ⟨j, w⟩
     · rename_i f rest hst
       split
-      · refine ⟨jc_congr (s' := setThread s t { s.threads t with stack := rest }) j rfl rfl rfl rfl
+      · refine ⟨jc_congr (s' := setThread s t { s.threads t with stack := rest }) j rfl rfl rfl
           (setThread_pc_same s t _ rfl) (static_refl s) rfl rfl rfl, jw_pop w t f rest hst⟩
       · rename_i h hs hf
         exact j_runHook g j w t f h hs rest ht hst hf
@@ -746,5 +740,238 @@ theorem j_run {s : State} (g : Good s) (o : Ord s) (j : JC s) (w : JW s) (sched 
     obtain ⟨t, a⟩ := x
     have := j_step g o j w t a
     exact ih (good_step g t a) (ord_step g o t a) this.1 this.2
+
+/-! ### the condition variable: no lost wake-up -/
+
+/-- a thread parked in `p.join.Wait()` sees a positive counter; threads inside `Join(p)` name an
+existing process -/
+structure JP (s : State) : Prop where
+  pcLt : ∀ t p, (s.threads t).pc = .joining p ∨ (s.threads t).pc = .waiting p → p < s.np
+  pos : ∀ t p, (s.threads t).pc = .waiting p → 0 < (s.procs p).children
+
+theorem jp_init (nt : Nat) : JP (init nt) := by
+  refine ⟨?_, ?_⟩ <;> simp [init]
+
+theorem jp_mono {s s' : State} (j : JP s) (hj : ∀ t p, (s'.threads t).pc = .joining p → (s.threads t).pc = .joining p)
+    (hw : ∀ t p, (s'.threads t).pc = .waiting p → (s.threads t).pc = .waiting p) (hnp : s.np ≤ s'.np)
+    (hch : ∀ p, p < s.np → (s.procs p).children ≤ (s'.procs p).children) : JP s' := by
+  refine ⟨?_, ?_⟩
+  · intro t p h
+    have : p < s.np := j.pcLt t p (h.elim (fun x => Or.inl (hj t p x)) (fun x => Or.inr (hw t p x)))
+    omega
+  · intro t p h
+    have h1 := hw t p h
+    have := j.pos t p h1
+    have := hch p (j.pcLt t p (Or.inr h1))
+    omega
+
+theorem jp_same {s s' : State} (j : JP s) (hpc : ∀ t, (s'.threads t).pc = (s.threads t).pc) (hnp : s.np ≤ s'.np)
+    (hch : ∀ p, p < s.np → (s.procs p).children ≤ (s'.procs p).children) : JP s' :=
+  jp_mono j (fun t p h => by rw [← hpc t]; exact h) (fun t p h => by rw [← hpc t]; exact h) hnp hch
+
+/-- setting the pc of `t` to something outside `Join` -/
+theorem jp_setPc_out {s : State} (j : JP s) (t : Nat) (pc : Pc) (h1 : ∀ p, pc ≠ .joining p) (h2 : ∀ p, pc ≠ .waiting p) :
+    JP (setThread s t { s.threads t with pc := pc }) := by
+  refine jp_mono j ?_ ?_ (Nat.le_refl _) (fun _ _ => Int.le_refl _)
+  · intro t' p h
+    by_cases e : t' = t
+    · subst e; simp at h; exact absurd h (h1 p)
+    · simpa [upd_other _ _ e] using h
+  · intro t' p h
+    by_cases e : t' = t
+    · subst e; simp at h; exact absurd h (h2 p)
+    · simpa [upd_other _ _ e] using h
+
+theorem jp_joinStart {s : State} (j : JP s) (t p : Nat) (hp : p < s.np) :
+    JP (setThread s t { s.threads t with pc := .joining p }) := by
+  refine ⟨?_, ?_⟩
+  · intro t' q h
+    by_cases e : t' = t
+    · subst e; simp at h; cases h; exact hp
+    · simp [upd_other _ _ e] at h; exact j.pcLt t' q h
+  · intro t' q h
+    by_cases e : t' = t
+    · subst e; simp at h
+    · simp [upd_other _ _ e] at h; exact j.pos t' q h
+
+theorem jp_wait {s : State} (j : JP s) (t p : Nat) (hpc : (s.threads t).pc = .joining p)
+    (hpos : 0 < (s.procs p).children) : JP (setThread s t { s.threads t with pc := .waiting p }) := by
+  have hp := j.pcLt t p (Or.inl hpc)
+  refine ⟨?_, ?_⟩
+  · intro t' q h
+    by_cases e : t' = t
+    · subst e; simp at h; cases h; exact hp
+    · simp [upd_other _ _ e] at h; exact j.pcLt t' q h
+  · intro t' q h
+    by_cases e : t' = t
+    · subst e; simp at h; cases h; exact hpos
+    · simp [upd_other _ _ e] at h; exact j.pos t' q h
+
+/-- the wait-done hook: a decrement to 0 wakes every thread parked on this process -/
+theorem jp_waitDone {s : State} (j : JP s) (q : Nat) (hnn : 0 ≤ (s.procs q).children - 1) : JP (waitDone s q) := by
+  have fl := waitDone_fields s q
+  have gh := waitDone_ghost s q
+  have hthreads : (waitDone s q).threads =
+      if (s.procs q).children - 1 = 0 then (broadcast s q).threads else s.threads := by
+    unfold waitDone; dsimp only; split <;> rfl
+  refine ⟨?_, ?_⟩
+  · intro t p h
+    rw [gh.1]
+    rw [hthreads] at h
+    by_cases e : (s.procs q).children - 1 = 0
+    · simp only [e, if_true, broadcast] at h
+      by_cases e2 : (s.threads t).pc = .waiting q
+      · simp [e2] at h; subst h; exact j.pcLt t q (Or.inr e2)
+      · simp [e2] at h; exact j.pcLt t p h
+    · simp only [e, if_false] at h; exact j.pcLt t p h
+  · intro t p h
+    rw [hthreads] at h
+    rw [(fl p).2.2.2.2]
+    by_cases e : (s.procs q).children - 1 = 0
+    · simp only [e, if_true, broadcast] at h
+      by_cases e2 : (s.threads t).pc = .waiting q
+      · simp [e2] at h
+      · simp [e2] at h
+        have hne : p ≠ q := by intro x; subst x; exact e2 h
+        rw [if_neg hne]; exact j.pos t p h
+    · simp only [e, if_false] at h
+      by_cases e3 : p = q
+      · subst e3; rw [if_pos rfl]; omega
+      · rw [if_neg e3]; exact j.pos t p h
+
+theorem addHook_pc (s : State) (t p : Nat) (k : HookKind) (t' : Nat) :
+    ((addHook s t p k).threads t').pc = (s.threads t').pc := by
+  unfold addHook; dsimp only; split
+  · exact pushFrame_pc _ t _ t'
+  · split <;> rfl
+
+theorem addHook_children (s : State) (t p : Nat) (k : HookKind) (c : Nat) :
+    ((addHook s t p k).procs c).children = (s.procs c).children := by
+  unfold addHook; dsimp only; split
+  · rfl
+  · split
+    · rfl
+    · by_cases e : c = p
+      · subst e; simp
+      · simp [upd_other _ _ e]
+
+theorem jp_exitFlip {s : State} (j : JP s) (t p e : Nat) : JP (exitFlip s t p e) :=
+  jp_same j (exitFlip_pc s t p e) (by simp) (fun c _ => by rw [(static_exitFlip s t p e c).2.2]; exact Int.le_refl _)
+
+theorem jp_addHook {s : State} (j : JP s) (t p : Nat) (k : HookKind) : JP (addHook s t p k) :=
+  jp_same j (addHook_pc s t p k) (by simp) (fun c _ => by rw [addHook_children]; exact Int.le_refl _)
+
+theorem jp_startOp {s : State} (j : JP s) (t : Nat) (op : Op) : JP (startOp s t op) := by
+  cases op with
+  | new =>
+    refine jp_same j (fun _ => rfl) (Nat.le_succ _) ?_
+    intro p hp
+    have e : p ≠ s.np := by omega
+    simp [startOp, upd_other _ _ e]
+  | exit p e => simp only [startOp]; split
+                · exact jp_exitFlip j t p e
+                · exact j
+  | add p h => simp only [startOp]; split
+               · exact jp_addHook j t p _
+               · exact j
+  | fork p =>
+    simp only [startOp]; split
+    · have j1 : JP (setProc s p { s.procs p with children := (s.procs p).children + 1 }) := by
+        refine jp_same j (fun _ => rfl) (Nat.le_refl _) ?_
+        intro c _
+        by_cases e : c = p
+        · subst e; simp; omega
+        · simp [upd_other _ _ e]
+      exact jp_setPc_out j1 t (.forkReg p) (by intro q x; cases x) (by intro q x; cases x)
+    · exact j
+  | join p =>
+    simp only [startOp]; split
+    · rename_i hp; exact jp_joinStart j t p hp
+    · exact j
+  | setv p k v =>
+    simp only [startOp]; split
+    · refine jp_same j (fun _ => rfl) (Nat.le_refl _) ?_
+      intro c _
+      by_cases e : c = p
+      · subst e; simp
+      · simp [upd_other _ _ e]
+    · exact j
+  | delv p k =>
+    simp only [startOp]; split
+    · refine jp_same (s' := { s with procs := (removeValue s.np s.procs p k).1 }) j (fun _ => rfl) (Nat.le_refl _) ?_
+      intro c _
+      rw [(removeValue_fields s.np s.procs p k c).2.2.2.2.1]; exact Int.le_refl _
+    · exact j
+
+theorem jp_forkReg {s : State} (j : JP s) (t p : Nat) : JP (forkReg s t p) := by
+  unfold forkReg
+  have j1 := jp_setPc_out j t .idle (by intro q x; cases x) (by intro q x; cases x)
+  refine jp_addHook (s := mkChild (setThread s t { s.threads t with pc := .idle }) p) ?_ t p _
+  refine jp_same j1 (fun _ => rfl) (by simp [mkChild]) ?_
+  intro c hc
+  have e : c ≠ s.np := by simp at hc; omega
+  simp [mkChild, upd_other _ _ e]
+
+theorem jp_runHook {s : State} (g : Good s) (jc : JC s) (w : JW s) (j : JP s) (t : Nat) (f : Frame) (h : Hook)
+    (hs : List Hook) (rest : List Frame) (ht : t < s.nt) (hst : (s.threads t).stack = f :: rest)
+    (hf : f.rem = h :: hs) : JP (runHook s t f h hs rest) := by
+  have j1 : JP (logMove s t f h hs rest) :=
+    jp_same j (setThread_pc_same s t { s.threads t with stack := { f with rem := hs } :: rest } rfl)
+      (Nat.le_refl _) (fun _ _ => Int.le_refl _)
+  unfold runHook
+  dsimp only
+  split
+  · exact j1
+  · rename_i q hk
+    -- the counter stays non-negative: accounting in the state after the hook
+    have jc' := jc_logMove_wd g jc w t f h hs rest ht hst hf q hk
+    have hfm : f ∈ (s.threads t).stack := by rw [hst]; simp
+    have hhm : h ∈ f.rem := by rw [hf]; simp
+    have hq : q < s.np := jc.parentLt f.proc q (g.frameOK t f ht hfm).1 ((w.wdF t f h ht hfm hhm).1 q hk).1
+    have hacc := jc'.acc q (by rw [(waitDone_ghost _ q).1]; exact hq)
+    rw [(waitDone_fields _ q q).2.2.2.2, if_pos rfl] at hacc
+    exact jp_waitDone j1 q (by omega)
+  · exact jp_exitFlip j1 t _ _
+
+theorem jp_contStep {s : State} (g : Good s) (jc : JC s) (w : JW s) (j : JP s) (t : Nat) (ht : t < s.nt) :
+    JP (contStep s t) := by
+  unfold contStep
+  dsimp only
+  split
+  · exact jp_forkReg j t _
+  · rename_i p hpc
+    split
+    · rename_i hpos; exact jp_wait j t p hpc hpos
+    · exact jp_setPc_out j t .idle (by intro q x; cases x) (by intro q x; cases x)
+  · exact j
+  · split
+    · exact j
+    · rename_i f rest hst
+      split
+      · exact jp_same j (setThread_pc_same s t { s.threads t with stack := rest } rfl) (Nat.le_refl _)
+          (fun _ _ => Int.le_refl _)
+      · rename_i h hs hf
+        exact jp_runHook g jc w j t f h hs rest ht hst hf
+
+theorem jp_step {s : State} (g : Good s) (jc : JC s) (w : JW s) (j : JP s) (t : Nat) (a : Action) :
+    JP (step s t a) := by
+  unfold step
+  split
+  · rename_i ht
+    cases a with
+    | start op => simp only []; split
+                  · exact jp_startOp j t op
+                  · exact j
+    | cont => exact jp_contStep g jc w j t ht
+  · exact j
+
+theorem jp_run {s : State} (g : Good s) (o : Ord s) (jc : JC s) (w : JW s) (j : JP s) (sched : List (Nat × Action)) :
+    JP (run s sched) := by
+  induction sched generalizing s with
+  | nil => exact j
+  | cons x xs ih =>
+    obtain ⟨t, a⟩ := x
+    have h := j_step g o jc w t a
+    exact ih (good_step g t a) (ord_step g o t a) h.1 h.2 (jp_step g jc w j t a)
 
 end Uniflow.Process
